@@ -550,6 +550,9 @@ class Transport(threading.Thread, ClosingContextManager):
         self.saved_exception = None
         self.clear_to_send = threading.Event()
         self.clear_to_send_lock = threading.Lock()
+        # serialises starting a key exchange (renegotiate_keys() in an
+        # application thread, the transport thread) with finishing one
+        self._kex_start_lock = threading.RLock()
         self.clear_to_send_timeout = 30.0
         # connection-layer messages generated by the transport thread itself
         # (replies to peer requests, keepalives) while a key exchange is in
@@ -1242,6 +1245,10 @@ class Transport(threading.Thread, ClosingContextManager):
         new keys whenever you want.  Negotiating new keys causes a pause in
         traffic both ways as the two sides swap keys and do computations.  This
         method returns when the session has switched to new keys.
+
+        If a key exchange is already in progress (started by the peer, by the
+        automatic thresholds or by another thread), this method waits for that
+        exchange to finish instead of starting a second one inside it.
 
         :raises:
             `.SSHException` -- if the key renegotiation failed (which causes
@@ -2455,7 +2462,17 @@ class Transport(threading.Thread, ClosingContextManager):
         """
         announce to the other side that we'd like to negotiate keys, and what
         kind of key negotiation we support.
+
+        Does nothing when our KEXINIT for the exchange currently in progress
+        is out already (the peer or the rekey thresholds started it, or
+        another thread called `renegotiate_keys`): a second KEXINIT inside an
+        exchange is a protocol error that makes the peer drop the session.
         """
+        with self._kex_start_lock:
+            if self.local_kex_init is None:
+                self._really_send_kex_init()
+
+    def _really_send_kex_init(self):
         self.clear_to_send_lock.acquire()
         try:
             self.clear_to_send.clear()
@@ -2963,6 +2980,13 @@ class Transport(threading.Thread, ClosingContextManager):
     def _parse_newkeys(self, m):
         self._log(DEBUG, "Switch to new keys ...")
         self._activate_inbound()
+        # (under the lock: renegotiate_keys() in another thread must see the
+        # exchange either as still running or as completely wound up)
+        with self._kex_start_lock:
+            self._finish_kex()
+        return
+
+    def _finish_kex(self):
         # can also free a bunch of stuff here
         self.local_kex_init = self.remote_kex_init = None
         self.K = None
@@ -2990,7 +3014,6 @@ class Transport(threading.Thread, ClosingContextManager):
             self.clear_to_send.set()
         finally:
             self.clear_to_send_lock.release()
-        return
 
     def _parse_disconnect(self, m):
         code = m.get_int()
